@@ -1,6 +1,6 @@
 """C18 - each TLS connection uses the credentials designated at that moment."""
 import json
-from gen import common, ctxstore
+from gen import common, ctxstore, systls
 
 LEAN_MODULE = "XcmModel.Props.C18"
 THEOREMS = [
@@ -22,6 +22,25 @@ def run(ctx):
                 "the SSL_CTX, cache listing with reference counts, contexts released) is compared with the Lean CtxStore model; "
                 "monitors on the implementation's output: reference counts = holders, release exactly by the last holder.")
     ctxstore.run_part(ctx, 25 if quick else 1200)
+    # real sockets: credential updates interleaved with connection set-up; established connections pinged
+    exe = systls.build()
+    for k in range(3 if quick else 60):
+        cmds = systls.gen_switch_history(ctx.rng.fork("sw%d" % k), 60, ctx)
+        rc, out, err = systls.run(exe, cmds, ctx, timeout=1200)
+        ctx.traces += 1
+        if rc != 0 or len(out) != len(cmds):
+            ctx.violation("sys_tls:crash:" + common.crash_site(err), "sys_tls died at %r" % cmds[min(len(out), len(cmds) - 1)],
+                          {"harness": "sys_tls", "ops": cmds[:len(out) + 1], "stderr": err[-3000:]})
+            break
+        model = common.run_model("tlspolicy", "\n".join(cmds) + "\n")
+        systls.check_switch(ctx, cmds, model, out)
+        if k == 0:
+            ctx.sample({"harness": "sys_tls", "cmds": cmds[:10], "model_out": model[:10], "impl_out": out[:10]}, cap=8)
+    ctx.rule += ("  sys_tls: real tls/btls sockets: the default XCM_TLS_CERT directory rewritten by rename, the variable switched to another "
+                 "directory, new server sockets, per-socket overrides on connect and accept, in random interleavings with connection "
+                 "set-up; for every new connection the certificate each side sees is compared with the model (server sockets keep the "
+                 "file names resolved at their creation, the content is read per connection; clients resolve the variable when they "
+                 "connect); established connections are pinged after updates and must keep working with unchanged peer certificates.")
     ctx.assumptions += [
         "K-stat: replacing a file changes (dev, ino, size, mtime) and identities are not reused while a call is in progress (no ABA); "
         "lstat+stat of one item are treated as one access",
@@ -34,4 +53,7 @@ def run(ctx):
 
 def replay(path):
     r = json.load(open(path))
+    if r.get("harness") == "sys_tls":
+        from gen.props import C09
+        return C09.replay(path)
     return ctxstore.replay(r)
